@@ -37,6 +37,9 @@ def C13(chk):
     if mc.res.violated:
         return spec_violation(chk, mc, "MC_Stabilize")
     replay(chk, mc, "MC_Stabilize(|D|=%d)" % n)
+    if chk.tier == "thorough":
+        import selftest
+        chk.notes.append("binding self-test: " + selftest.selftest_l2())
     chk.cov["exhaustive"] = True
     chk.cov["rule"] = ("every rule function f: D -> D u {E1,E2} on |D|=%d states, start fixed by symmetry; the loop machine is "
                        "checked against the contract (fixed point, orbit membership, <=4 calls, f's own error, Invalid otherwise) and "
@@ -49,6 +52,9 @@ def C13(chk):
 # --------------------------------------------------------------------------------- L1-only parts
 def C14(chk):
     apply_l1(chk, ["id", "ff", "ns"], full32=(chk.tier == "thorough"), nontrivial_key="sigs")
+    if chk.tier == "thorough":
+        import selftest
+        chk.notes.append("binding self-test: " + selftest.selftest_l1())
     chk.cov["rule"] = ("all scalar values 0..10FFFF through both classes and both entry points, surrogates, and values above "
                        "U+10FFFF (thorough: all 2^32; quick: boundaries, powers of two, 200k seeded samples); one trace event per run "
                        "of equal (oracle signature, observables); TLC evaluates the RFC 8264 decision list on the signature; "
@@ -107,6 +113,9 @@ def C04(chk):
     apply_l1(chk, ["wm", "lc1", "lc3", "bidi"], nontrivial_key="runs")
     l3_run(chk, "usernames-limits", driver="limits", per_string=2, kinds=["enforce"], profiles=profs, seed_offset=5)
     l3_run(chk, "usernames", strings=500 if q else 6000, per_string=4, kinds=["enforce", "enforce", "prepare"], profiles=profs)
+    if not q:
+        import selftest
+        chk.notes.append("binding self-test: " + selftest.selftest_l3())
     chk.cov["exhaustive"] = True
     chk.cov["rule"] = ("every string of length <= %d over four 9-role alphabets (width x validation x case, case x NFC, NFC x bidi, "
                        "context x case), canonical instance plus %d seeded random instances of the same roles; both username profiles, "
@@ -505,6 +514,9 @@ def C17(chk):
         shutil.rmtree(scratch, ignore_errors=True)
     from l3 import csv_trace_run
     csv_trace_run(chk, rows=20000 if q else 300000)
+    if not q:
+        import selftest
+        chk.notes.append("binding self-test: " + selftest.selftest_csv())
     chk.cov["exhaustive"] = True
     chk.cov["rule"] = ("model: every file of a header (3 shapes, skipped whatever it contains) and <= %d rows from a catalogue of 4x4x5 "
                        "well-formed row shapes (single / range / U+10FFFF, single property / ordered pair, descriptions with 0-2 commas "
